@@ -753,7 +753,7 @@ func propC07Random(col *evid.Collector) func(rt *rapid.T) {
 // ---------- C08 ----------
 
 func TestC08Build(t *testing.T) {
-	col := evid.New("C08", "drop-providers", "buildable configurations from which each provider registration is dropped with probability 0-40% (so plain, keyed, optional and group dependencies of singletons, scoped services, transients and initializer functions lose their provider); oracle (=>): if Build succeeds, resolving every registered identity from a fresh scope and from the provider never fails with service-not-found; (<=): if the reference finds no cycle, no captive dependency and no missing required dependency, Build must succeed; non-trivial = a required dependency of a scoped/transient/initializer is missing, or the set contains an initializer depending on a singleton, or an optional/group dependency without provider")
+	col := evid.New("C08", "drop-providers", "buildable configurations from which each provider registration is dropped with probability 0-40% (so plain, keyed, optional and group dependencies of singletons, scoped services, transients and initializer functions lose their provider); oracle (=>): if Build succeeds, resolving every registered identity from a fresh scope and from the provider never fails with service-not-found; (<=): if the reference finds no cycle, no captive dependency and no missing required dependency, Build must succeed - also when constructors that are not eagerly run (neither singletons, nor scope initializer functions, nor dependencies of those) fail or panic whenever they are called; non-trivial = a required dependency of a scoped/transient/initializer is missing, or the set contains an initializer depending on a singleton, or an optional/group dependency without provider")
 	defer col.Flush()
 	rapid.Check(t, propC08Build(col))
 }
@@ -820,9 +820,64 @@ func propC08Build(col *evid.Collector) func(rt *rapid.T) {
 				}
 			}
 		}
+		// "...and whose eagerly run constructors succeed": constructors that Build has no business
+		// running may be broken - they fail (or panic) whenever they are called. Eagerly run are
+		// the singletons, the scope initializer functions (for the root scope) and whatever
+		// those depend on; everything else is constructed on request only.
+		var lazyFaulty []int
+		if rapid.IntRange(0, 2).Draw(rt, "lazyFaults") == 0 {
+			eager := map[int]bool{}
+			var visit func(id int)
+			visit = func(id int) {
+				if eager[id] {
+					return
+				}
+				eager[id] = true
+				for _, d := range m.Regs[id].Deps {
+					if d.Ignored {
+						continue
+					}
+					for _, tg := range m.DepTargets(d) {
+						visit(tg.Reg)
+					}
+				}
+			}
+			for _, id := range m.Order {
+				if r := m.Regs[id]; r.Life == kit.Singleton || (r.Life == kit.Scoped && r.Form == kit.FormVoid) {
+					visit(id)
+				}
+			}
+			for _, id := range m.Order {
+				if r := m.Regs[id]; !eager[id] && r.Form != kit.FormInstance && rapid.IntRange(0, 2).Draw(rt, "lazyFaulty") == 0 {
+					lazyFaulty = append(lazyFaulty, id)
+				}
+			}
+			if len(lazyFaulty) > 0 {
+				labels = append(labels, "broken-lazy-constructor")
+				for _, id := range lazyFaulty {
+					if r := m.Regs[id]; r.Form == kit.FormVoid && r.Life == kit.Transient {
+						labels = append(labels, "broken-transient-function")
+						nt = true
+					}
+				}
+			}
+		}
 		labels = dedup(labels)
 		canon := cfg.String()
-		x, err := startRun(cfg, nil)
+		if len(lazyFaulty) > 0 {
+			canon += fmt.Sprintf(" [constructors that always fail: r%v]", lazyFaulty)
+		}
+		x, err := startRunWith(cfg, nil, func(w *kit.World) {
+			for _, id := range lazyFaulty {
+				for n := 1; n <= 64; n++ {
+					if m.Regs[id].HasErr {
+						w.Faults[[2]int{id, n}] = kit.Fault{Kind: kit.FaultError, Err: fmt.Errorf("r%d is broken", id)}
+					} else {
+						w.Faults[[2]int{id, n}] = kit.Fault{Kind: kit.FaultPanic, Panic: fmt.Sprintf("r%d is broken", id)}
+					}
+				}
+			}
+		})
 		if err != nil {
 			rt.Fatal(err)
 		}
@@ -860,7 +915,11 @@ func propC08Build(col *evid.Collector) func(rt *rapid.T) {
 			}
 			x.R.CloseProvider()
 		} else if len(defectClasses(m)) == 0 {
-			f = fail("C08", "rejected-resolvable", kit.Classify(x.Build.Err), "no cycle, no captive dependency, nothing required missing, yet Build failed: %v", firstLine(x.Build.Err))
+			sig := kit.Classify(x.Build.Err)
+			if len(lazyFaulty) > 0 {
+				sig += "/broken-lazy-constructor"
+			}
+			f = fail("C08", "rejected-resolvable", sig, "no cycle, no captive dependency, nothing required missing (constructors that fail whenever called, none of them eagerly run: r%v), yet Build failed: %v", lazyFaulty, firstLine(x.Build.Err))
 		}
 		// the same must hold for a later Build of the same collection after a registration was removed
 		if f == nil && rapid.IntRange(0, 2).Draw(rt, "rebuild") == 0 {
